@@ -87,7 +87,7 @@ def fill (dd : Bool) (rec : Int → Int → List Block) (mint maxt : Int) :
 
 /-- `getFor` on the resolution levels from the current one on.  The Go code passes
     `s.resolutions[i+1]` as the new maximum resolution and searches the level again; for a strictly
-    descending resolution list that search ends at `i+1` (`Lemmas/BlockSet.firstIdx_drop`). -/
+    descending resolution list that search ends at `i+1` (`Lemmas/BlockSet.firstIdx_next`, `Props/C15.C15_recursion_level`). -/
 def getForL (dd : Bool) : List (List Block) → Int → Int → List Block
   | [], _, _ => []
   | bs :: rest, mint, maxt =>
